@@ -14,6 +14,7 @@ pub mod c07;
 pub mod c08;
 pub mod c09;
 pub mod c10;
+pub mod c11;
 pub mod c12;
 pub mod c13;
 pub mod c14;
@@ -86,7 +87,7 @@ pub trait Scenario: Sync {
 }
 
 pub fn registry() -> Vec<&'static dyn Scenario> {
-    vec![&c01::C01, &c02::C02, &c03::C03, &c04::C04, &c05::C05, &c06::C06, &c07::C07, &c08::C08, &c09::C09, &c10::C10, &c12::C12, &c13::C13, &c14::C14, &c15::C15, &c16::C16, &c17::C17, &c19::C19, &c20::C20]
+    vec![&c01::C01, &c02::C02, &c03::C03, &c04::C04, &c05::C05, &c06::C06, &c07::C07, &c08::C08, &c09::C09, &c10::C10, &c11::C11, &c12::C12, &c13::C13, &c14::C14, &c15::C15, &c16::C16, &c17::C17, &c19::C19, &c20::C20]
 }
 pub fn lookup(id: &str) -> Option<&'static dyn Scenario> {
     registry().into_iter().find(|s| s.id().eq_ignore_ascii_case(id))
@@ -134,7 +135,20 @@ fn fault_from(v: &Value) -> Option<Fault> {
         "txerr" => Fault::TxErr { pid, nth, errno: v["errno"].as_i64().unwrap_or(libc::ENOBUFS as i64) as i32 },
         "eintr" => Fault::Eintr { pid, nth },
         "short" => Fault::ShortBatch { pid, nth, max: v["max"].as_i64().unwrap_or(1) as i32 },
-        "fderr" => Fault::FdErr { pid, nth, errno: v["errno"].as_i64().unwrap_or(libc::EMFILE as i64) as i32 },
+        "fderr" => Fault::FdErr {
+            pid,
+            nth,
+            errno: v["errno"].as_i64().unwrap_or(libc::EMFILE as i64) as i32,
+            call: match v["call"].as_str().unwrap_or("") {
+                "socketpair" => sim::S_SOCKETPAIR,
+                "socket" => sim::S_SOCKET,
+                "accept" => sim::S_ACCEPT,
+                "epoll_create1" => sim::S_EPOLL_CREATE,
+                "dup" => sim::S_DUP,
+                "shm_open" => sim::S_SHM_OPEN,
+                _ => 0,
+            },
+        },
         "polleintr" => Fault::PollEintr { pid, nth },
         "timejump" => Fault::TimeJump { step: v["step"].as_u64().unwrap_or(1), ns: v["ns"].as_u64().unwrap_or(0) },
         "closestdin" => Fault::CloseStdin { step: v["step"].as_u64().unwrap_or(1) },
